@@ -4,6 +4,8 @@ BFS over histories of add/remove/set/clear on real objects (2.0 SDO, 2.1 SDO, 2.
 with the set model mc/ref/markset.py in lock-step; every get_markings / is_marked query x flag combination in every state.
 A state is (object kind, frozenset of (selector, marking) pairs) - see DESIGN C07 'K' for why merged states have the same futures.
 """
+import copy
+import datetime as dt
 import itertools
 import json
 
@@ -450,12 +452,66 @@ TIER = ["quick"]
 EXPAND_LAST = [True]
 
 
+def run_type_sweep(item, part):
+    """EVERY versionable type of the frozen model: an object-level and a granular marking added (then removed again) while the clock reads the object's own 'modified'
+    or earlier - each result is a strictly newer version at the precision the type writes, with the non-marking content unchanged"""
+    import stix2
+    from mc.spec import gen, model
+    from stix2 import markings as MK
+    env.reset()
+    ver, key = item["version"], item["key"]
+    c = model.spec(ver).classes[key]
+    if not {"created", "modified", "revoked", "granular_markings"} <= set(c["properties"]) or c.get("type") == "bundle":
+        part.outcome("type-sweep:not-versionable")
+        return
+    g = gen.Gen(ver)
+    for mod in ("2020-01-01T00:00:00.000Z", "2020-01-01T00:00:00.123Z") + (("2020-01-01T00:00:00.123400Z",) if ver == "2.1" else ()):
+        d = dict(g.minimal(key), modified=mod, created="2019-01-01T00:00:00.000Z")
+        if model.validate(d, ver):
+            continue
+        try:
+            obj0 = stix2.parse(copy.deepcopy(d), version=ver)
+        except Exception:
+            part.outcome("type-sweep:base-refused(C03's business)")
+            continue
+        for cname, us in (("0", 0), ("-1s", -1000000), ("+1us", 1)):
+            obj = obj0
+            for step, op in enumerate((lambda o: MK.add_markings(o, RED), lambda o: MK.add_markings(o, STMT, ["type"]), lambda o: MK.remove_markings(o, RED), lambda o: MK.clear_markings(o, ["type"]))):
+                part.transitions += 1
+                part.evaluations += 1
+                before = view(obj)
+                cs = {"kind": "type-sweep", "version": ver, "key": key, "modified": mod, "clock": cname, "step": step}
+                env.CLOCK.frozen = obj.modified + dt.timedelta(microseconds=us)
+                try:
+                    res = op(obj)
+                except Exception as e:
+                    part.violation("C07/type-sweep/raises/%s" % type(e).__name__, "a marking operation on a versionable object raises", cs, "new version", "%s: %s" % (type(e).__name__, str(e)[:150]))
+                    break
+                finally:
+                    env.CLOCK.frozen = None
+                out = view(res)
+                part.state(("type-sweep", ver, key, mod, cname, step), nontrivial=True)
+                a, b = tsfmt.instant_of(before["modified"]), tsfmt.instant_of(out.get("modified"))
+                if a is None or b is None or not b > a:
+                    part.outcome("type-sweep:NOT-NEWER")
+                    part.violation("C07/not-newer/type-sweep/clock%s" % cname, "result is not a strictly newer version", cs, "> %s" % before["modified"], out.get("modified"))
+                else:
+                    part.outcome("type-sweep:newer")
+                if content(out) != content(before):
+                    part.violation("C07/content-changed/type-sweep", "non-marking content changed", cs, content(before), content(out))
+                obj = res
+
+
 def expand_item(item, part):
+    if item.get("kind") == "type-sweep":
+        return run_type_sweep(item, part)
     return run_history(item["kind"], item["history"], part, TIER[0], expand=item.get("expand", True), layout=item.get("layout"),
                        start_pairs=item.get("start_pairs"))
 
 
 def replay(case, part):
+    if case.get("kind") == "type-sweep":
+        return run_type_sweep({"kind": "type-sweep", "version": case["version"], "key": case["key"]}, part)
     run_history(case["kind"], case["history"], part, case.get("tier", "quick"), expand=False, layout=case.get("layout"), start_pairs=case.get("start_pairs"))
 
 
@@ -506,6 +562,8 @@ def run(run):
             for c in itertools.combinations(P, n):
                 direct.append({"kind": k, "history": [], "start_pairs": [list(p) for p in c], "expand": k == "v21-marking-definition" and n == 1})
     run.pmap(expand_item, direct)
+    from mc.spec import gen as _gen
+    run.pmap(expand_item, [{"kind": "type-sweep", "version": v, "key": k} for v in ("2.0", "2.1") for k in _gen.Gen(v).top_keys()])
     run.rule = ("BFS over add/remove/set/clear events (alphabet: %d selector options x %d marking options + flag variants) from the unmarked object of each kind, "
                 "all histories of length <= %d executed, queries in every reached state; plus every directly constructed state with <=2 pairs; "
                 "a state is non-trivial if its marking set is non-empty; distinct by canon = (object kind, frozenset of (selector, marking))"
